@@ -167,3 +167,42 @@ func ZZ_C04_BitString() {
 	vx.Assume(n == 0 || bl > 0)
 	zzMarshalVsRef(BitString{Bytes: vx.Bytes("b", n), BitLength: bl}, zzParams("ctx"))
 }
+
+// C04 over a sequence of marshals in one process: values of different struct
+// types - unnamed ones and a function-local named one included - are encoded
+// one after the other, in either order; each encoding equals the reference
+// (no state kept between calls may leak from one type to the next).
+//
+//gosx:property=C04 tier=quick unwind=16
+func ZZ_C04_DifferentTypesInSequence() {
+	a := vx.Int64("a")
+	vx.Assume(a >= -128 && a <= 127)
+	v1 := struct {
+		A int64 `ber:"tagNum:0"`
+		B int64 `ber:"tagNum:1"`
+	}{A: a, B: 7}
+	v2 := struct {
+		X int64  `ber:"tagNum:5"`
+		Y bool   `ber:"tagNum:6"`
+		Z *int64 `ber:"tagNum:7,optional"`
+	}{X: a, Y: vx.Bool("y")}
+	type local struct {
+		P bool  `ber:"tagNum:2"`
+		Q int64 `ber:"tagNum:9,explicit"`
+	}
+	v3 := local{P: true, Q: a}
+	switch vx.Choice("order", 3) {
+	case 0:
+		zzMarshalVsRef(v1, "")
+		zzMarshalVsRef(v2, "")
+		zzMarshalVsRef(v3, "")
+	case 1:
+		zzMarshalVsRef(v2, "")
+		zzMarshalVsRef(v1, "")
+		zzMarshalVsRef(v3, "")
+	default:
+		zzMarshalVsRef(v3, "")
+		zzMarshalVsRef(v2, "")
+		zzMarshalVsRef(v1, "")
+	}
+}
